@@ -150,7 +150,7 @@ class Ref:
             tname=f'{q[-2]}.{q[-1]}',
             ident=i,
             pdigest=self.pdigest(i),
-            ctx=ctx_view(self.filtered_context(i, context)),
+            ctx=ctx_view(self.filtered_context(i, context)) if self.sc.get('embed_ctx', True) else (),
             deps=tuple(dep_digests),
             extra=(f"{n['tag']}!{i}" if n['type'] == 'TP' else None),
             pad=make_pad(shape if shape is not None else n.get('shape'), i),
